@@ -218,7 +218,10 @@ func Ops() []Op {
 		fld(m, "Fork").Set(reflect.ValueOf(refspec.Fork{PreviousVersion: refspec.Version{1, 2, 3, 4}, CurrentVersion: refspec.Version{5, 6, 7, 8}, Epoch: S + 2}))
 	})
 	add("SetLatestBlockHeader", all, func(w *World, st common.BeaconState) error {
-		return st.SetLatestBlockHeader(&common.BeaconBlockHeader{Slot: S + 3, ProposerIndex: S + 4, ParentRoot: root(0x92), StateRoot: root(0x93), BodyRoot: root(0x94)})
+		h := &common.BeaconBlockHeader{Slot: S + 3, ProposerIndex: S + 4, ParentRoot: root(0x92), StateRoot: root(0x93), BodyRoot: root(0x94)}
+		err := st.SetLatestBlockHeader(h)
+		scribble(h)
+		return err
 	}, func(w *World, m reflect.Value) {
 		fld(m, "LatestBlockHeader").Set(reflect.ValueOf(refspec.BeaconBlockHeader{Slot: S + 3, ProposerIndex: S + 4, ParentRoot: refspec.Root(root(0x92)), StateRoot: refspec.Root(root(0x93)), BodyRoot: refspec.Root(root(0x94))}))
 	})
@@ -313,7 +316,7 @@ func Ops() []Op {
 			return b.SetBalance(common.ValidatorIndex(idx), S+11)
 		}, func(w *World, m reflect.Value) { fld(m, "Balances").Index(idx).SetUint(S + 11) })
 	}
-	add("SetBalances", all, func(w *World, st common.BeaconState) error { return st.SetBalances([]common.Gwei{7, 8, 9}) }, func(w *World, m reflect.Value) { fld(m, "Balances").Set(reflect.ValueOf([]uint64{7, 8, 9})) })
+	add("SetBalances", all, func(w *World, st common.BeaconState) error { b := []common.Gwei{7, 8, 9}; err := st.SetBalances(b); scribble(b); return err }, func(w *World, m reflect.Value) { fld(m, "Balances").Set(reflect.ValueOf([]uint64{7, 8, 9})) })
 	add("AddValidator", all, func(w *World, st common.BeaconState) error {
 		var pk common.BLSPubkey
 		pk[0], pk[47] = 0xab, 0xcd
@@ -536,13 +539,25 @@ func HeaderOps() []Op {
 		a, b := mk()
 		switch s := st.(type) {
 		case *bellatrix.BeaconStateView:
-			return s.SetLatestExecutionPayloadHeader(&bellatrix.ExecutionPayloadHeader{ParentHash: a, BlockNumber: S + 30, Timestamp: S + 31, ExtraData: []byte{1, 2, 3}, BlockHash: b, TransactionsRoot: root(0xb3)})
+			h := &bellatrix.ExecutionPayloadHeader{ParentHash: a, BlockNumber: S + 30, Timestamp: S + 31, ExtraData: []byte{1, 2, 3}, BlockHash: b, TransactionsRoot: root(0xb3)}
+			err := s.SetLatestExecutionPayloadHeader(h)
+			scribble(h)
+			return err
 		case *capella.BeaconStateView:
-			return s.SetLatestExecutionPayloadHeader(&capella.ExecutionPayloadHeader{ParentHash: a, BlockNumber: S + 30, Timestamp: S + 31, ExtraData: []byte{1, 2, 3}, BlockHash: b, TransactionsRoot: root(0xb3), WithdrawalsRoot: root(0xb4)})
+			h := &capella.ExecutionPayloadHeader{ParentHash: a, BlockNumber: S + 30, Timestamp: S + 31, ExtraData: []byte{1, 2, 3}, BlockHash: b, TransactionsRoot: root(0xb3), WithdrawalsRoot: root(0xb4)}
+			err := s.SetLatestExecutionPayloadHeader(h)
+			scribble(h)
+			return err
 		case *deneb.BeaconStateView:
-			return s.SetLatestExecutionPayloadHeader(&deneb.ExecutionPayloadHeader{ParentHash: a, BlockNumber: S + 30, Timestamp: S + 31, ExtraData: []byte{1, 2, 3}, BlockHash: b, TransactionsRoot: root(0xb3), WithdrawalsRoot: root(0xb4), BlobGasUsed: S + 32, ExcessBlobGas: S + 33})
+			h := &deneb.ExecutionPayloadHeader{ParentHash: a, BlockNumber: S + 30, Timestamp: S + 31, ExtraData: []byte{1, 2, 3}, BlockHash: b, TransactionsRoot: root(0xb3), WithdrawalsRoot: root(0xb4), BlobGasUsed: S + 32, ExcessBlobGas: S + 33}
+			err := s.SetLatestExecutionPayloadHeader(h)
+			scribble(h)
+			return err
 		case *electra.BeaconStateView:
-			return s.SetLatestExecutionPayloadHeader(&deneb.ExecutionPayloadHeader{ParentHash: a, BlockNumber: S + 30, Timestamp: S + 31, ExtraData: []byte{1, 2, 3}, BlockHash: b, TransactionsRoot: root(0xb3), WithdrawalsRoot: root(0xb4), BlobGasUsed: S + 32, ExcessBlobGas: S + 33})
+			h := &deneb.ExecutionPayloadHeader{ParentHash: a, BlockNumber: S + 30, Timestamp: S + 31, ExtraData: []byte{1, 2, 3}, BlockHash: b, TransactionsRoot: root(0xb3), WithdrawalsRoot: root(0xb4), BlobGasUsed: S + 32, ExcessBlobGas: S + 33}
+			err := s.SetLatestExecutionPayloadHeader(h)
+			scribble(h)
+			return err
 		}
 		return fmt.Errorf("no payload header on %T", st)
 	}, func(w *World, m reflect.Value) { modelSet(m) }})
@@ -550,6 +565,38 @@ func HeaderOps() []Op {
 }
 
 func AllOps() []Op { return append(Ops(), HeaderOps()...) }
+
+// scribble overwrites, in place, everything reachable from a value the caller handed to a setter (struct fields,
+// array bytes, slice elements): the state must have taken a copy, so nothing of the state may change
+// ("each setter changes that field and nothing else" — including later, through memory the caller still owns).
+func scribble(p interface{}) { scribbleV(reflect.ValueOf(p)) }
+
+func scribbleV(v reflect.Value) {
+	switch v.Kind() {
+	case reflect.Ptr, reflect.Interface:
+		if !v.IsNil() {
+			scribbleV(v.Elem())
+		}
+	case reflect.Struct:
+		for i := 0; i < v.NumField(); i++ {
+			if v.Field(i).CanSet() || v.Field(i).Kind() == reflect.Slice || v.Field(i).Kind() == reflect.Ptr {
+				scribbleV(v.Field(i))
+			}
+		}
+	case reflect.Array, reflect.Slice:
+		for i := 0; i < v.Len(); i++ {
+			scribbleV(v.Index(i))
+		}
+	case reflect.Uint8, reflect.Uint16, reflect.Uint32, reflect.Uint64, reflect.Uint:
+		if v.CanSet() {
+			v.SetUint(v.Uint() ^ 0xEE)
+		}
+	case reflect.Bool:
+		if v.CanSet() {
+			v.SetBool(!v.Bool())
+		}
+	}
+}
 
 // Getters: every getter / typed sub-view read vs the model. Returns the first mismatch.
 func (w *World) Getters(h *Handle) string {
